@@ -2,10 +2,10 @@
    vc_put on the character view of the buffer (MotDefs), with the registers of RegDefs.
    Second half: the interpreter [exec] of key programs -- mirror of vc_motion, vi_yank, vi_delete,
    vi_change, vi_case, vi_shift, vc_put, vc_join, vc_replace, vc_insert (vi.c) and of led_input /
-   led_line (led.c: keys ^H DEL ^U ^W ^T ^D, autoindent on) over the state (buffer, cursor state of
+   led_line (led.c: keys ^H DEL ^U ^W ^T ^D ^V ^P ^R, autoindent on) over the state (buffer, cursor state of
    MotDefs, registers of RegDefs).  Text handed to lbuf_edit is cut into lines on the character
    view (split_text); for valid UTF-8 that is the byte-wise cut of lbuf_replace.
-   Not modelled: the ! filter, u, ., marks, searches, insert-mode keys ^V ^K ^P ^R ^A ^F ^E,
+   Not modelled: the ! filter, u, ., marks, searches, insert-mode keys ^K ^A ^F ^E (and ^V before a newline or a multi-byte character),
    keymaps other than 0, the ai option switched off.  Only definitions. *)
 From Coq Require Import List NArith ZArith Bool.
 From NV Require Import Bytes UcDefs UcSpec MotDefs RegDefs.
@@ -141,20 +141,29 @@ Definition led_lastword (sb : list chr) : nat :=
          let kind := match r with O => 0%N | _ => uc_kind (nth r sb []) end in
          lw_kind sb kind r
   end.
-(* one key of led_line; state = (typed text of this line, autoindent buffer) *)
-Definition led_key (pref_empty : bool) (st : list chr * list chr) (k : chr) : list chr * list chr :=
-  let (sb, ai) := st in
+(* one key of led_line; state = (typed text of this line, autoindent buffer, pending key: 0 none, 1 = the
+   byte after ^V, 2 = the register name after ^R).  ^V takes the next key literally (modelled for a single-byte
+   key other than newline), ^P appends the unnamed register, ^R x the register x (may contain newlines) *)
+Definition lstate := (list chr * list chr * N)%type.
+Definition reg_chars (R : regs) (c : N) : list chr := match reg_get R c with Some (t, _) => chop t | None => [] end.
+Definition led_key (R : regs) (pref_empty : bool) (st : lstate) (k : chr) : lstate :=
+  let '(sb, ai, pend) := st in
   let c := b0 k in
-  if N.eqb c 8 || N.eqb c 127 then (removelast sb, ai)                     (* ^H DEL: sbuf_cut(led_lastchar) *)
-  else if N.eqb c 21 then ([], ai)                                         (* ^U *)
-  else if N.eqb c 23 then (firstn (led_lastword sb) sb, ai)                (* ^W *)
-  else if N.eqb c 20 then (sb, if Nat.ltb (length ai) ai_max then ai ++ [[9%N]] else ai)     (* ^T *)
-  else if N.eqb c 4 then                                                    (* ^D *)
+  if N.eqb pend 1 then (sb ++ [k], ai, 0%N)                                  (* led_readchar after ^V *)
+  else if N.eqb pend 2 then (sb ++ (if N.eqb c 0 then [] else reg_chars R c), ai, 0%N)      (* ^R x *)
+  else if N.eqb c 8 || N.eqb c 127 then (removelast sb, ai, 0%N)            (* ^H DEL: sbuf_cut(led_lastchar) *)
+  else if N.eqb c 21 then ([], ai, 0%N)                                      (* ^U *)
+  else if N.eqb c 23 then (firstn (led_lastword sb) sb, ai, 0%N)             (* ^W *)
+  else if N.eqb c 20 then (sb, (if Nat.ltb (length ai) ai_max then ai ++ [[9%N]] else ai), 0%N)     (* ^T *)
+  else if N.eqb c 4 then                                                      (* ^D *)
     ((if is_nil ai && pref_empty then match sb with c0 :: r => if is_blankc c0 then r else sb | [] => sb end else sb),
-     removelast ai)
-  else (sb ++ [k], ai).
-Definition led_line (pref_empty : bool) (keys : list chr) (ai : list chr) : list chr * list chr :=
-  fold_left (led_key pref_empty) keys ([], ai).
+     removelast ai, 0%N)
+  else if N.eqb c 22 then (sb, ai, 1%N)                                       (* ^V *)
+  else if N.eqb c 18 then (sb, ai, 2%N)                                       (* ^R *)
+  else if N.eqb c 16 then (sb ++ reg_chars R 0, ai, 0%N)                      (* ^P *)
+  else (sb ++ [k], ai, 0%N).
+Definition led_line (R : regs) (pref_empty : bool) (keys : list chr) (ai : list chr) : list chr * list chr :=
+  fst (fold_left (led_key R pref_empty) keys ([], ai, 0%N)).
 
 (* the typed keys of one insert, cut at the newline keys (never empty) *)
 Fixpoint split_typed (t : list chr) : list (list chr) :=
@@ -166,25 +175,27 @@ Fixpoint split_typed (t : list chr) : list (list chr) :=
                    | [] => [[k]]
                    end
   end.
-(* led_input: the loop; returns the replacement text and post as it is at the end (its leading
-   blanks are stripped after every newline) *)
-Fixpoint led_loop (segs : list (list chr)) (pref post ai acc : list chr) {struct segs} : list chr * list chr :=
+(* led_input: the loop; returns the replacement text, post as it is at the end (its leading blanks are
+   stripped after every newline) and the number of nextline() calls (lncnt summed) *)
+Fixpoint led_loop (R : regs) (segs : list (list chr)) (pref post ai acc : list chr) (nls : nat) {struct segs}
+  : list chr * list chr * nat :=
   match segs with
-  | [] => (acc ++ post, post)
+  | [] => (acc ++ post, post, nls)
   | seg :: rest =>
-      let '(ln, ai) := led_line (is_nil pref) seg ai in
+      let '(ln, ai) := led_line R (is_nil pref) seg ai in
       let sp := length (fst (span_blank ln)) in
       let last := is_nil rest in
       let use_ai := negb (Nat.eqb (length ln) sp) || negb (is_nil pref)
                     || (last && match post with c :: _ => negb (is_nlb c) | [] => false end) in
       let acc := acc ++ (if use_ai then ai else []) ++ pref ++ ln ++ (if last then [] else [nlc]) in
+      let nls := (nls + length (filter is_nlb ln) + (if last then 0 else 1))%nat in
       let ai := if is_nil pref then ai ++ firstn (Nat.min sp (ai_max - length ai)) ln else ai in
-      if last then (acc ++ post, post)
-      else led_loop rest [] (snd (span_blank post)) ai acc
+      if last then (acc ++ post, post, nls)
+      else led_loop R rest [] (snd (span_blank post)) ai acc nls
   end.
-Definition led_input (pref post typed : list chr) : list chr * list chr :=
+Definition led_input (R : regs) (pref post typed : list chr) : list chr * list chr * nat :=
   let (ai, pref') := span_blank_n ai_max pref in
-  led_loop (split_typed typed) pref' post ai [].
+  led_loop R (split_typed typed) pref' post ai [] 0%nat.
 
 (* vi.c: charcount(text, post) for text = head ++ post: the characters of head after its last newline *)
 Definition charcount (text post : list chr) : Z :=
@@ -197,9 +208,9 @@ Fixpoint nextlines (rows : Z) (n : nat) (rt : Z * Z) : Z * Z :=
   | S n' => let (r, t) := rt in nextlines rows n' (if r =? t + rows - 1 then (r + 1, t + 1) else (r + 1, t))
   end.
 (* vi.c: vi_input: replacement, row = linecount(rep) - 1, off = max 0 (charcount - 1), newline keys typed *)
-Definition vi_input (pref post typed : list chr) : list chr * Z * Z * nat :=
-  let (rep, post') := led_input pref post typed in
-  (rep, count_nl rep, Z.max 0 (charcount rep post' - 1), (length (split_typed typed) - 1)%nat).
+Definition vi_input (R : regs) (pref post typed : list chr) : list chr * Z * Z * nat :=
+  let '(rep, post', nls) := led_input R pref post typed in
+  (rep, count_nl rep, Z.max 0 (charcount rep post' - 1), nls).
 
 (* ---------- the state ---------- *)
 Record est := mk_est { s_buf : buf; s_vs : vst; s_regs : regs }.
@@ -236,7 +247,7 @@ Definition vi_change (rows : Z) (b : buf) (R : regs) (s : vst) (ybuf : N) (g : r
   let R' := reg_put R ybuf (flat (region_text b g)) (g_ln g) in
   let pref := if g_ln g then vi_indents (getl b (g_r1 g)) else sub_l (optl (getl b (g_r1 g))) 0 (g_o1 g) in
   let post := if g_ln g || (blen b =? 0) then [nlc] else sub_l (optl (getl b (g_r2 g))) (g_o2 g) (-1) in
-  let '(rep, row, off, nls) := vi_input pref post typed in
+  let '(rep, row, off, nls) := vi_input R' pref post typed in       (* ^P / ^R see the register just written *)
   let top' := snd (nextlines rows nls (g_r1 g, v_top s)) in
   let b' := lbuf_edit b (Some rep) (g_r1 g) (g_r2 g + 1) in
   finish rows b' R' (vs_top (vs_pos s (g_r1 g + row - 1) off) top') true.
@@ -379,7 +390,7 @@ Definition exec_insert (rows : Z) (e : est) (k : ikey) (typed : list chr) : est 
   let line_ins := match oln with Some _ => negb (is_oO k) | None => false end in
   let pref := if line_ins then sub_l (optl oln) 0 off else vi_indents oln in
   let post := if line_ins then sub_l (optl oln) off (-1) else [nlc] in
-  let '(rep, row, off', nls) := vi_input pref post typed in
+  let '(rep, row, off', nls) := vi_input R pref post typed in
   let (xrow, top') := nextlines rows nls rt in
   let b1 := if is_oO k && (blen b =? 0) then lbuf_edit b (Some [nlc]) 0 0 else b in
   let beg := xrow - row + 1 in
@@ -484,7 +495,7 @@ Definition ref_replace (body : list chr) (o n : Z) (c : chr) : list chr :=
    unless the line is empty), and the row where the lines of a line-wise register go *)
 Definition ref_put_off (body : list chr) (o : Z) (after : bool) : Z := if after && negb (is_nil body) then o + 1 else o.
 Definition ref_put_row (r : Z) (after : bool) : Z := if after then r + 1 else r.
-(* a typed key that is plain text for the modelled insert mode: none of ^H DEL ^U ^W ^T ^D and not a newline *)
-Definition plain_key (k : chr) : bool := negb (existsb (N.eqb (b0 k)) [8; 127; 21; 23; 20; 4; 10]%N).
+(* a typed key that is plain text for the modelled insert mode: none of ^H DEL ^U ^W ^T ^D ^V ^R ^P and not a newline *)
+Definition plain_key (k : chr) : bool := negb (existsb (N.eqb (b0 k)) [8; 127; 21; 23; 20; 4; 22; 18; 16; 10]%N).
 (* where i / a start inserting in the cursor line *)
 Definition ref_ins_off (body : list chr) (o : Z) (append : bool) : Z := if append && negb (is_nil body) then o + 1 else o.
